@@ -9,12 +9,16 @@
                     the mode's formula holds for the winding number of the outline and the number
                     of triangles covering `q`, or `q` is within the tolerance `d2` (squared
                     distance) of an outline edge.
-  * `generic_iff`   what "generic" means in terms of the input: `q` is not level with a vertex of
-                    the outline or of a triangle, not level with a crossing of two segments, and
-                    not on a segment's supporting line at its own height.
-  * `ratScalar_agrees`  the executable `Scalar ℚ` instance (`Model/RatScalar.lean`) has the same
-                    operations as the field instance at `K = ℚ`, so the theorem is about the
-                    function the executables run.
+  * `mem_ordinates_only`, `generic_of`, `generic_not_vertexLevel`
+                    what "generic" means in terms of the input: a cut ordinate is the ordinate of
+                    a vertex of the outline or of a triangle, or of a crossing of two segments'
+                    supporting lines; so `q` is generic if it is level with none of these and not
+                    on a segment's supporting line at its own height.
+  * `ratScalar_eq_fieldScalar`, `check_sound_rat`
+                    the executable `Scalar ℚ` instance (`Model/RatScalar.lean`) IS the field
+                    instance at `K = ℚ`, so the theorem is about the function the executables run.
+  * `check0`, `generic0`   non-vacuity: a concrete input (a triangle covered by itself) passes the
+                    checker, evaluated inside the logic, and has generic points.
 
   The proof: `Lemmas/SlabAlg.lean` (order preservation inside a slab, convexity of the band,
   bisection), `Lemmas/SlabList.lean` (cut ordinates), `Lemmas/SlabSweep.lean` (sweep invariant,
@@ -28,6 +32,10 @@ set_option linter.unusedVariables false
 
 namespace Lyon.Slab
 open Lyon
+
+-- In this file every `Scalar` instance is the ordered-field one; the executable rational instance
+-- is only referred to by name (`ratScalar_eq_fieldScalar`).
+attribute [-instance] Lyon.instScalarRat
 
 variable {K : Type} [Field K] [LinearOrder K] [IsStrictOrderedRing K]
 
@@ -294,7 +302,8 @@ theorem check_sound (inp : Input K) (hok : (check inp).fails = []) (q : P K) (hg
         · left; exact hgap
         · right
           have hne : y0 ≠ y1 := by intro e; rw [e] at hp1; exact lt_irrefl _ (lt_trans hp1 hp2)
-          refine bandRec_sound inp.edges inp.d2 y0 y1 q hp1 hp2 bandDepth _ _ _ _ hgap ?_ ?_
+          refine bandRec_sound inp.edges inp.d2 q bandDepth y0 y1 _ _ _ _ hgap (lt_trans hp1 hp2)
+            hp1.le hp2.le ?_ ?_
           · rw [← xAt_lerp _ y0 y1 q.y hne, ← hae]
             exact (hleft a (hLmem a ha).1 (hLmem a ha).2).le
           · rw [← xAt_lerp _ y0 y1 q.y hne]
@@ -341,14 +350,7 @@ theorem ends_vertexLevel {inp : Input K} {it : Item K} (h : it ∈ checkItems in
     subst he
     simp only [List.mem_cons, List.mem_nil_iff, or_false] at ho
     rcases ho with ho | ho | ho <;> rcases mkItem_ends ho.symm with ⟨ha, hb⟩ | ⟨ha, hb⟩ <;>
-      refine ⟨Or.inr ⟨ti.1, ht, ?_⟩, Or.inr ⟨ti.1, ht, ?_⟩⟩ <;> rw [ha] <;> try rw [hb]
-    all_goals first
-      | exact Or.inl rfl
-      | exact Or.inr (Or.inl rfl)
-      | exact Or.inr (Or.inr rfl)
-      | skip
-    all_goals first
-      | (rw [hb]; first | exact Or.inl rfl | exact Or.inr (Or.inl rfl) | exact Or.inr (Or.inr rfl))
+      (rw [ha, hb]; exact ⟨Or.inr ⟨ti.1, ht, by simp⟩, Or.inr ⟨ti.1, ht, by simp⟩⟩)
 
 theorem exists_of_mem_allCrossings : ∀ (l : List (Item K)) (y : K), y ∈ allCrossings l →
     ∃ i ∈ l, ∃ j ∈ l, crossY i j = some y
